@@ -102,60 +102,6 @@ CLAIMED = {
              "is per-program translation validation, not a theorem about compiler.py.",
         design_ref="§5 C18",
     ),
-<<<<<<< HEAD
-    "C21": dict(
-        category="proof",
-        technique="Lean 4 proof by complete finite enumeration (decide +kernel) that the special-method table read from "
-                  "runtime.py by a Python-ast translator, resolved through Python's dispatch rules, equals the documented "
-                  "operation table + exhaustive runs on the real classes and through templates",
-        text="Theorem undef_table_eq (Props/C21.lean): for all 8 undefined kinds (default, chainable, debug, strict and "
-             "their logging variants) and all 38 operations (print, truth, sync/async iteration, containment, length, "
-             "equality, hash, repr, __html__, 14 arithmetic operators in both operand orders, unary, 4 comparisons, "
-             "int/float/complex, attribute, dunder attribute, item, call) the outcome obtained by MRO resolution over "
-             "the regenerated class table equals the documented table; the enumeration is proved complete. Tie: the "
-             "table is re-read every run; the correspondence is exhaustive too: kinds x operations x 4 origins x 6 "
-             "operands on real objects, copy/deepcopy/pickle, and templates in sync and async environments; error "
-             "messages must name the missing variable/attribute.",
-        note="Trusted: Lean kernel; translator (body-shape classification); Python's reflected-operator dispatch as "
-             "modelled; log records of the logging variants are not part of the compared outcome.",
-        design_ref="§5 C21",
-    ),
-<<<<<<< HEAD
-    "C34": dict(
-        category="proof",
-        technique="Lean 4 proof that the model of native_concat equals the documented result for every piece list, both "
-                  "call forms and any literal evaluator + exhaustive small piece lists and end-to-end native renders",
-        text="Theorem native_concat_spec (Props/C34.lean): for every list of pieces (strings and non-string values), "
-             "arriving as list or generator, and every literal evaluator, the transcription of native_concat returns None "
-             "for no output, the value itself for a single non-string value, and otherwise the literal the concatenated "
-             "text denotes or the text. Tie: all piece lists of length <3 (quick) / <4 (thorough) over 21 text pieces and "
-             "12 values against the real function (identity checked with `is`), random longer lists, render-modify-render "
-             "histories, 24 templates x value pairs through render / render_async / render in an async native "
-             "environment, and native environments with a finalize hook against a segment-level reference.",
-        note="Trusted: Lean kernel; hand model Model/Native.lean; ast.literal_eval/parse are a parameter (Python's); the "
-             "native code generator is covered end-to-end only.",
-        design_ref="§5 C34",
-=======
-=======
->>>>>>> build/C21
-    "C28": dict(
-        category="proof",
-        technique="Lean 4 proofs about the model of split_template_path / posixpath.join / choice and prefix dispatch "
-                  "(all names, any separators) + exhaustive differential names + audit-hook runs of the real loaders",
-        text="Theorems (Props/C28.lean): for every name and any os.sep/altsep, every piece split_template_path accepts is "
-             "non-empty, is not '.' or '..' and contains no '/', separator or alternative separator (split_safe); a name "
-             "with a '..' segment is rejected (pardir_rejected); joining a search directory with accepted pieces only "
-             "appends path components, none is absolute (join_inside); the choice loader answers with the first loader "
-             "that has the name and fails iff none has it (choice_first, choice_none_iff); the prefix loader dispatches "
-             "on the text before the first delimiter (prefix_dispatch). Tie: every name of <=3 (quick) / <=4 (thorough) "
-             "segments over 15 fragments under POSIX and Windows separators; the same names against FileSystemLoader, "
-             "PackageLoader, PrefixLoader, ChoiceLoader on a scratch tree with sentinels outside and an audit hook "
-             "recording every open(); static and content-changing compositions of dict loaders.",
-        note="Trusted: Lean kernel; hand model Model/Path.lean (tied by correspondence); the OS path resolution and "
-             "symlinks are outside the model (observed by the audit hook only).",
-        design_ref="§5 C28",
->>>>>>> build/C34
-    ),
     "C22": dict(
         category="proof",
         technique="Lean 4 proofs of the filter contracts on list models (partition, sizes, first occurrences, sorted "
